@@ -64,11 +64,10 @@ Op parse_op(const std::string& s)
     return o;
 }
 
+// block (visibly to the scheduler: the thread is disabled, not spinning) until signal n is raised
 void wait_sig(int n)
 {
-    while (!R->sig[n]) {
-        std::this_thread::yield();
-    }
+    verif::sched([n] { return R->sig[n] ? int(verif::EN) : int(verif::DIS); });
 }
 
 // the user function of task k
@@ -153,19 +152,28 @@ struct ThreadCtx {
             h.reset();
         }
     }
-    bool poll(int k)
+    bool m_free() const { return dg.m_mutex.owner == 0 && dg.m_mutex.readers == 0; }
+    bool has_future(int k) const { return fl.count(k) != 0U || fv.count(k) != 0U; }
+    // no event, no scheduling point (also evaluated by the scheduler while this thread is parked)
+    bool ready(int k)
     {
-        bool ready = false;
         auto zero = std::chrono::seconds(0);
         if (fl.count(k) != 0U) {
-            ready = fl[k].wait_for(zero) == std::future_status::ready;
-        } else if (fv.count(k) != 0U) {
-            ready = fv[k].wait_for(zero) == std::future_status::ready;
-        } else {
-            return true;  // nothing to wait for (script error): do not spin
+            return fl[k].wait_for(zero) == std::future_status::ready;
         }
-        verif::emit("fpoll " + std::to_string(k) + (ready ? " 1" : " 0"));
-        return ready;
+        if (fv.count(k) != 0U) {
+            return fv[k].wait_for(zero) == std::future_status::ready;
+        }
+        return true;  // nothing to wait for (already consumed / script error): do not wait
+    }
+    bool poll(int k)
+    {
+        if (!has_future(k)) {
+            return true;
+        }
+        bool r = ready(k);
+        verif::emit("fpoll " + std::to_string(k) + (r ? " 1" : " 0"));
+        return r;
     }
     void get(int k)
     {
@@ -213,7 +221,15 @@ struct ThreadCtx {
                 verif::emit("exc " + o.name + " " + ks);
             }
         } else if (o.name == "aw") {
-            while (!poll(o.k)) {
+            // polling await.  Between polls the thread is parked at a scheduling point that is enabled when the future is ready or
+            // when a lock_shared of this thread could drain (nobody holds m): no busy spinning, so priority-based schedules cannot
+            // starve the thread that has to release m, and a stranded task shows up as deadlock / step limit.
+            for (;;) {
+                int k = o.k;
+                verif::sched([this, k] { return (ready(k) || (!h && m_free())) ? int(verif::EN) : int(verif::DIS); });
+                if (poll(k)) {
+                    break;
+                }
                 if (!h) {
                     acquire("ls");
                     release();
